@@ -522,9 +522,17 @@ pub async fn run_listener() {
     // 0 none; 1 plain grants; 2 the last one asks for a drain; 3 the last one asks for an echo
     let pipelined = pick(&[0u32, 0, 1, 1, 2, 3]);
     let pipelined_credits: Vec<u32> = (0..1 + choice(3)).map(|_| pick(&[1u32, 3, 2, 5, 0])).collect();
+    // the listener's sending links start counting where the application says
+    let l_initial_dc: u32 = match choice(6) {
+        0 | 1 => 0,
+        2 => 1000,
+        3 => 0x7fff_fffe,
+        4 => u32::MAX - choice(12),
+        _ => choice(1 << 20),
+    };
     sim::set_config(format!(
-        "side=listener msgs={} unsettled={} h2-yield=1/{} pipelined-flows={} credits={:?} {}",
-        n, unsettled, yield_den, pipelined, pipelined_credits, nd
+        "side=listener msgs={} unsettled={} h2-yield=1/{} pipelined-flows={} credits={:?} initial-delivery-count={} {}",
+        n, unsettled, yield_den, pipelined, pipelined_credits, l_initial_dc, nd
     ));
     sim::mark_nontrivial();
     let models = Models {
@@ -559,7 +567,7 @@ pub async fn run_listener() {
                     return;
                 }
             };
-            let la = LinkAcceptor::new();
+            let la = if l_initial_dc == 0 && choice(2) == 0 { LinkAcceptor::new() } else { LinkAcceptor::builder().initial_delivery_count(l_initial_dc).build() };
             gate2.take().await;
             match la.accept(&mut sess).await {
                 Ok(LinkEndpoint::Sender(s)) => {
@@ -646,6 +654,10 @@ pub async fn run_listener() {
     }
     st.ep_handle = ap.field(1).as_u32().unwrap_or(0);
     st.initial_dc = ap.field(9).as_u32().unwrap_or(0);
+    if st.initial_dc != l_initial_dc {
+        sim::violation("initial-delivery-count", format!("the listener's attach carries initial-delivery-count {:?}, configured {}", ap.field(9), l_initial_dc));
+        return;
+    }
     st.limit = st.initial_dc.wrapping_add(last_credit.unwrap_or(0));
     st.unsettled_mode = unsettled && ap.field(3).as_u32() != Some(1);
     for f in std::mem::take(&mut peer.skipped) {
